@@ -30,7 +30,7 @@ ASSUMPTIONS = [
     "depth_m = depth_ft x 0.3048 is compared within 4 ulp",
 ]
 REQUIRED = ["json_exports", "json_integer_header_values", "json_text_curves", "json_nan_header_values", "json_object_curves_with_nan", "csv_exports", "csv_records_checked",
-            "excel_exports", "excel_text_curves", "df_roundtrips", "depth_unit_cases", "depth_conflict_cases", "depth_unrecognised_cases", "depth_cases_mnemonic_case_lower", "depth_cases_mnemonic_case_preserve"]
+            "excel_exports", "excel_text_curves", "df_roundtrips", "df_roundtrips_with_stale_suffixes", "depth_unit_cases", "depth_conflict_cases", "depth_unrecognised_cases", "depth_cases_mnemonic_case_lower", "depth_cases_mnemonic_case_preserve"]
 SOFT_DEADLINE = {"quick": 100, "thorough": 1500}
 LEVEL_TEXT = "Exploration with independent readers of every export format as oracles over generated and corpus objects."
 LEVEL_NOTE = "Trusts json/csv/openpyxl/pandas as readers; export options outside the listed sets are not covered."
@@ -373,6 +373,19 @@ def _xl_same(g, v):
 # ---- DataFrame ----------------------------------------------------------------------------------------------------------------
 def run_df(case, ctx, las):
     import copy
+    _run_df(case, ctx, las)
+    # the same object after the first member of a duplicate family has been deleted: the survivors keep ':2', ':3'
+    stale = copy.deepcopy(las)
+    items = secops.raw_items(stale.curves)
+    hit = next((i for i, it in enumerate(items) if it.mnemonic.endswith(":1") and i > 0), None)
+    if hit is not None and len(items) > 2:
+        stale.delete_curve(ix=hit)
+        ctx.count("df_roundtrips_with_stale_suffixes")
+        _run_df(dict(case, stale_suffix=True), ctx, stale)
+
+
+def _run_df(case, ctx, las):
+    import copy
     V = ctx.violation
     if len(las.curves) == 0 or len({len(c.data) for c in las.curves}) != 1:
         return
@@ -410,7 +423,7 @@ def run_df(case, ctx, las):
             if not _col_same(a.data, b.data):
                 V("df-roundtrip-values", "curve %r after set_data_from_df(df()) holds %r, expected %r" % (b.mnemonic, np.asarray(a.data)[:5], np.asarray(b.data)[:5]), detail)
                 break
-    ctx.case_done(["df", typemix(las)[1], len(keys), case.get("via")], nontrivial(las))
+    ctx.case_done(["df", typemix(las)[1], len(keys), case.get("via"), bool(case.get("stale_suffix"))], nontrivial(las))
 
 
 def _col_same(a, b):
